@@ -36,6 +36,14 @@ def valid(case):
     return not N.schema_errors(case["a"], unique_ids=False) and not N.schema_errors(case["b"], unique_ids=False)
 
 
+def precheck(case):
+    for k in ("a", "b"):
+        e = N.schema_errors(case[k], unique_ids=False)
+        if e:
+            return "%s is not schema-valid: %s" % (k, e[0])
+    return None
+
+
 def budget(tier):
     return 4000 if tier == "quick" else 60000
 
